@@ -677,7 +677,9 @@ def gen_ir(rng, n_calls, family=None, rich=True, cfg=None):
                     ir.deps.append((lit.id, lit2.id))
                     lit = lit2
                 if rng.random() < 0.5:
-                    args.append(ref(lit.id))
+                    # the literal is the argument itself, or sits inside a container that holds no other node (the dependency onto the literal is
+                    # declared later: when the container is gathered the literal has no dependency yet)
+                    args.append(ref(lit.id) if rng.random() < 0.65 else _wrap(rng, [ref(lit.id)], const_expr))
                 else:
                     late_deps.append(lit.id)
             else:
